@@ -23,20 +23,31 @@ _pw_cache = None
 PW_CACHE = os.path.join(BUILD, "pwcache.json")
 
 
+_pw_src = None
+
+
 def pw_hash(pw):
-    """argon2 hash of pw as computed by the real argon2_hash_password (cached on disk)."""
-    global _pw_cache
+    """argon2 hash of pw as computed by the real argon2_hash_password (cached on disk, per content of the source file that holds
+    the hashing helper: a tree whose helper differs gets its own hashes, as a fresh checkout would)."""
+    global _pw_cache, _pw_src
     if _pw_cache is None:
         try:
             _pw_cache = json.load(open(PW_CACHE))
         except Exception:
             _pw_cache = {}
-    if pw not in _pw_cache:
+    if _pw_src is None:
+        import hashlib
+        try:
+            _pw_src = hashlib.sha1(open("/repo/src/utils.rs", "rb").read()).hexdigest()[:10]
+        except Exception:
+            _pw_src = "-"
+    key = _pw_src + ":" + pw
+    if key not in _pw_cache:
         out = subprocess.run([RSH, "pure"], input="H %s\n" % hx(pw), capture_output=True, text=True).stdout
-        _pw_cache[pw] = json.loads(out.strip())
+        _pw_cache[key] = json.loads(out.strip())
         os.makedirs(BUILD, exist_ok=True)
         json.dump(_pw_cache, open(PW_CACHE, "w"))
-    return _pw_cache[pw]
+    return _pw_cache[key]
 
 
 def pkg_info():
